@@ -30,6 +30,11 @@ func (e *Engine) verifyFunc(fn *ssa.Function, ct *Contract, prop string) *Run {
 		if v.K == KPtr && !ct.Nullable[p.Name()] {
 			st.assume(app("<", "0", v.P.T))
 		}
+		if v.K == KIface && v.T != "" && !ct.Nullable[p.Name()] && typeName(p.Type()) != "error" {
+			// like pointer parameters: an interface parameter (a writer, a connection, a response writer) is a real object unless the
+			// contract says it may be nil
+			st.assume(not(app("=", v.T, "0")))
+		}
 		args = append(args, v)
 		r.vars[p.Name()] = v
 	}
